@@ -211,6 +211,15 @@ def run(tier: str, rep: Report):
         pool.close()
 
     fails = validate_traces(rep, files, "c10")
+
+    def corrupt(e):
+        if not e.get("has_pub") or e.get("pub_exc") or not e.get("pub_lines"):
+            return None
+        e["pub_lines"][0] += 1
+        return e
+
+    import decode_family as df
+    df.negative_control(rep, files, "Trace_Lines", corrupt, ("P.lines",))
     asm_fails = validate_traces(rep, asm_files, "asm-binding", "Trace_Asm")
     rep.cov["assembler_binding"]["mismatches"] = len(asm_fails)
     for af in asm_fails[:5]:
